@@ -257,8 +257,9 @@ def r11_2(ck):
                 slices.append(sub[0])
         if ok:
             s1, s2 = slices
+            b1 = resolve_local(f.node, s1.value, r)
             base_ok = A.same(s1.value, s2.value) and 'items()' in \
-                A.unparse(s1.value)
+                A.unparse(b1)
             lo = [s for s in slices if s.slice.lower is not None and
                   s.slice.upper is None]
             hi = [s for s in slices if s.slice.upper is not None and
